@@ -70,6 +70,19 @@ CHECKS["C16"] = dict(
     technique="Coq proof (invariant + nested induction over the chain reaction), differential correspondence, closure oracle",
     design="5/C16")
 
+CHECKS["C01"] = dict(
+    text="Coq theorems over a model of the lazy_wrapper decorators with the signature scheme as a Section variable: "
+         "auth_only_if_valid (handler invoked with key pk => pk is the key field of that datagram, the datagram splits exactly into a "
+         "signed part and a signature of the length the key prescribes, the signature verifies under pk over the whole signed part, "
+         "payloads come from inside it), auth_peer_is_key, auth_sound_send (what ezr_pack emits is accepted with exactly its payloads, "
+         "via the C02 round trip), handlers_consistent / handlers_as_expected over the handler tables regenerated from the instantiated "
+         "overlays on every run. The decorator model is tied to the real decorators on mutated real datagrams (signature oracle "
+         "answered by the real primitive on the slices the model prescribes); authenticity of every handler-body entry and every new "
+         "verified peer is checked on the implementation independently of ipv8's slicing.",
+    note="Trusted: Coq kernel; unforgeability of the signature primitive (Section variable); tr_handlers introspection; model M01_auth "
+         "(correspondence-checked); handlers registered without a decorator (raw_handlers) are observed by the oracle only.",
+    technique="Coq proof over decorator model + regenerated handler tables + mutation-based differential correspondence", design="5/C01")
+
 NOT_APPLICABLE = {}
 
 
